@@ -179,6 +179,7 @@ impl TxnCoordinator {
 //@@ end
 
 //@@ fn file=fe2o3-amqp/src/transaction/coordinator.rs impl=`impl Drop for TxnCoordinator` name=drop
+//@@ attr #[verifier::loop_isolation(false)]
 //@@ shape loops=for
 //@@ subst `self.txn_ids.drain()` => `__drained` rule=R9
 //@@ entry
